@@ -125,3 +125,571 @@ Proof.
   { destruct xs; [contradiction|]. cbn [length]. rewrite Nat2Z.inj_succ, succ_IZR. pose proof (IZR_le 0 _ (Nat2Z.is_nonneg (length xs))). lra. }
   field. exact Hn.
 Qed.
+
+(* compartments of one layer share their saturated water content (they do: Soil.add_layer assigns layer by layer) *)
+Definition uniform_s (p : list (Comp R)) : Prop :=
+  forall c c', In c p -> In c' p -> c_layer c = c_layer c' -> c_th_s c = c_th_s c'.
+
+Lemma hyd_th_s_uniform p c : uniform_s p -> In c p -> hyd_th_s p (c_layer c) = c_th_s c.
+Proof.
+  intros U Hin. unfold hyd_th_s. apply kahan_mean_const.
+  - intros E.
+    assert (H : In (c_th_s c) (flat_map (fun c0 : Comp R => if (c_layer c0 =? c_layer c)%Z then [c_th_s c0] else []) p)).
+    { apply in_flat_map. exists c. split; [exact Hin|]. rewrite Z.eqb_refl. left. reflexivity. }
+    rewrite E in H. destruct H.
+  - apply Forall_forall. intros v Hv. apply in_flat_map in Hv. destruct Hv as (c' & Hc' & Hv).
+    destruct (Z.eqb_spec (c_layer c') (c_layer c)) as [El|]; [|destruct Hv]. destruct Hv as [<-|[]]. apply U; assumption.
+Qed.
+
+(* ============================================================================================================ *)
+(*  Part A.4  saturation below the table keeps every per-compartment range that th_s satisfies                    *)
+(* ============================================================================================================ *)
+Section Sat.
+  Variable Q : Comp R -> R -> Prop.
+  Variable pall : list (Comp R).
+
+  Lemma sat_from_Q p : (forall c, In c p -> Q c (hyd_th_s pall (c_layer c))) ->
+    forall th th', Forall2 Q p th -> sat_from pall p th = Some th' -> Forall2 Q p th'.
+  Proof.
+    induction p as [|c r IH]; intros HQ th th' H E.
+    - inversion H; subst. cbn in E. inversion E. constructor.
+    - inversion H as [|? t ? th1 Hct H1]; subst. cbn [sat_from] in E.
+      destruct (sat_from pall r th1) as [l|] eqn:E1; [|discriminate]. inversion E; subst.
+      constructor; [apply HQ; left; reflexivity|]. apply (IH (fun c0 Hc0 => HQ c0 (or_intror Hc0)) th1 l H1 E1).
+  Qed.
+
+  Lemma sat_find_Q zgw p : (forall c, In c p -> Q c (hyd_th_s pall (c_layer c))) ->
+    forall top th th', Forall2 Q p th -> sat_find pall zgw top p th = Some th' -> Forall2 Q p th'.
+  Proof.
+    induction p as [|c r IH]; intros HQ top th th' H E; [discriminate|].
+    cbn [sat_find] in E. destruct (nleb num_ops zgw _).
+    - exact (sat_from_Q (c :: r) HQ th th' H E).
+    - inversion H as [|? t ? th1 Hct H1]; subst.
+      destruct (sat_find pall zgw (c_dzsum c) r th1) as [l|] eqn:E1; [|discriminate]. inversion E; subst.
+      constructor; [exact Hct|]. apply (IH (fun c0 Hc0 => HQ c0 (or_intror Hc0)) _ th1 l H1 E1).
+  Qed.
+End Sat.
+
+Lemma fcadj_in_bounds p a : wf_prof p -> fcadj_ok p a -> in_bounds p a.
+Proof.
+  intros Hw H. induction H as [|c x p l Hc H IH]; [constructor|]. inversion Hw as [|? ? Hwc Hw']; subst.
+  constructor; [|apply IH; exact Hw']. pose proof (wf_dry_wp c Hwc). pose proof (wf_wp_fc c Hwc). lra.
+Qed.
+
+Lemma fc_fcadj_ok p : wf_prof p -> fcadj_ok p (map (fun c => c_th_fc c) p).
+Proof. induction 1 as [|c r Hc Hr IH]; cbn [map]; constructor; [|exact IH]. pose proof (wf_fc_s c Hc). lra. Qed.
+
+(* ============================================================================================================ *)
+(*  Part A.5  the water-table part of initialisation                                                              *)
+(* ============================================================================================================ *)
+(* what the water-table branch needs: soil values on the 3-decimal grid (th_fc_Adj is rounded to 3 decimals) and one
+   saturated content per layer (the compartments below the table receive the LAYER MEAN of th_s) *)
+Definition table_ok (p : list (Comp R)) (wt : Z) : Prop :=
+  wt = 0%Z \/ (wt = 1%Z /\ grid3_prof p /\ uniform_s p).
+
+Lemma init_water_inv p wt zgw0 fcr th0 z b fc th :
+  wf_prof p -> in_bounds p th0 -> table_ok p wt ->
+  init_water p wt zgw0 fcr th0 = Some (z, b, fc, th) -> fcadj_ok p fc /\ in_bounds p th.
+Proof.
+  intros Hw Hb [->|(-> & Hg & Hu)]; unfold init_water; cbn [Z.eqb Pos.eqb]; rnum.
+  - intros [= <- <- <- <-]. split; [apply fc_fcadj_ok; exact Hw | exact Hb].
+  - destruct zgw0 as [zgw|]; [|discriminate].
+    pose proof (init_fcadj_ok zgw p Hw Hg) as Hfc.
+    assert (Hs_fc : forall c, In c p -> c_th_fc c <= hyd_th_s p (c_layer c) <= c_th_s c).
+    { intros c Hc. rewrite (hyd_th_s_uniform p c Hu Hc). pose proof (wf_fc_s c (proj1 (Forall_forall _ _) Hw c Hc)). lra. }
+    assert (Hs_b : forall c, In c p -> c_th_dry c <= hyd_th_s p (c_layer c) <= c_th_s c).
+    { intros c Hc. rewrite (hyd_th_s_uniform p c Hu Hc). pose proof (proj1 (Forall_forall _ _) Hw c Hc) as Hwc.
+      pose proof (wf_fc_s c Hwc). pose proof (wf_dry_wp c Hwc). pose proof (wf_wp_fc c Hwc). lra. }
+    destruct (init_wt_in_soil zgw p).
+    + destruct fcr.
+      * destruct (sat_find p zgw 0 p (init_fcadj zgw p)) as [th2|] eqn:E; [|discriminate].
+        intros [= <- <- <- <-].
+        pose proof (sat_find_Q (fun c a => c_th_fc c <= a <= c_th_s c) p zgw p Hs_fc 0 _ _ Hfc E) as H2.
+        split; [exact H2 | apply fcadj_in_bounds; assumption].
+      * destruct (sat_find p zgw 0 p th0) as [th2|] eqn:E; [|discriminate].
+        intros [= <- <- <- <-]. split; [exact Hfc|].
+        exact (sat_find_Q (fun c t => c_th_dry c <= t <= c_th_s c) p zgw p Hs_b 0 _ _ Hb E).
+    + intros [= <- <- <- <-]. split; [exact Hfc|]. destruct fcr; [apply fcadj_in_bounds; assumption | exact Hb].
+Qed.
+
+(* ============================================================================================================ *)
+(*  Part B  the initial state                                                                                      *)
+(* ============================================================================================================ *)
+(* inversion of init_state: the fields that are not constants *)
+Lemma init_state_inv par k zgw0 fcr th0 s : init_state par k zgw0 fcr th0 = Some s ->
+  exists z b fc th, init_water (so_prof (p_soil par)) (p_water_table par) zgw0 fcr th0 = Some (z, b, fc, th) /\
+    s = {| d_age_days := 0; d_age_days_ns := 0; d_aer_days := 0; d_aer_days_comp := map (fun _ => 0) (so_prof (p_soil par)); d_irr_cum := 0;
+           d_delayed_gdds := 0; d_delayed_cds := 0%Z; d_pct_lag_phase := 0; d_t_early_sen := 0; d_gdd_cum := 0;
+           d_day_submerged := 0; d_irr_net_cum := 0; d_e_pot := 0; d_t_pot := 0;
+           d_pre_adj := false; d_crop_dead := false; d_germination := false; d_premat_senes := false; d_growing_season := false;
+           d_yield_form := false; d_stage2 := false; d_wt_in_soil := Some b;
+           d_stage := 1; d_f_pre := 1; d_f_post := 1; d_fpost_dwn := 1; d_fpost_upp := 1; d_h1_cor_asum := 0;
+           d_h1_cor_bsum := 0; d_f_pol := 0; d_s_cor1 := 0; d_s_cor2 := 0; d_hi_ref := 0;
+           d_HIfinal := c_HI0 (p_crop par 0%Z);
+           d_growth_stage := 0%Z; d_tr_ratio := 1; d_r_cor := 1;
+           d_canopy_cover := 0; d_canopy_cover_adj := 0; d_canopy_cover_ns := 0; d_canopy_cover_adj_ns := 0; d_biomass := 0;
+           d_biomass_ns := 0; d_YieldPot := 0; d_harvest_index := 0; d_harvest_index_adj := 0; d_ccx_act := 0;
+           d_ccx_act_ns := 0; d_ccx_w := 0; d_ccx_w_ns := 0; d_ccx_early_sen := 0; d_cc_prev := 0; d_protected_seed := false;
+           d_DryYield := 0; d_FreshYield := 0;
+           d_z_root := if (k =? -1)%Z then 0 else if (k =? 0)%Z then c_Zmin (p_crop par 0%Z) else 0;
+           d_cc0_adj := if (k =? -1)%Z then 0 else if (k =? 0)%Z then c_CC0 (p_crop par 0%Z) else 0;
+           d_surface_storage := if (k =? -1)%Z then init_surface (p_fallow_field par)
+                                else if (k =? 0)%Z then init_surface (p_field par) else 0;
+           d_z_gw := Some z; d_th_fc_Adj := fc; d_th := th; d_thini := th;
+           d_time_step_counter := 0%Z; d_precipitation := 0; d_temp_max := 0; d_temp_min := 0; d_et0 := 0;
+           d_sumET0EarlySen := 0; d_gdd := 0; d_w_surf := 0; d_evap_z := 0; d_w_stage_2 := 0; d_depletion := 0; d_taw := 0 |}.
+Proof.
+  unfold init_state. cbv zeta.
+  destruct (init_water _ _ _ _ _) as [[[[z b] fc] th]|]; [|discriminate]. intros [= <-].
+  exists z, b, fc, th. split; [reflexivity|]. rnum. reflexivity.
+Qed.
+
+(* the static premises about the two field managements and the two irrigation managements *)
+Record MgmtOK (par : DPar R) : Prop := {
+  mo_bw : 0 <= f_bund_water (p_field par);
+  mo_zb : 0 <= f_z_bund (p_field par);
+  mo_bw_f : 0 <= f_bund_water (p_fallow_field par);
+  mo_smt : 0 <= i_NetIrrSMT (p_irr par) <= 100;
+  mo_smt_f : 0 <= i_NetIrrSMT (p_fallow_irr par) <= 100 }.
+
+Lemma init_surf_nonneg par k : MgmtOK par ->
+  0 <= (if (k =? -1)%Z then init_surface (p_fallow_field par) else if (k =? 0)%Z then init_surface (p_field par) else 0).
+Proof.
+  intros M. destruct (k =? -1)%Z; [apply init_surface_range, (mo_bw_f _ M)|].
+  destruct (k =? 0)%Z; [apply init_surface_range, (mo_bw _ M) | lra].
+Qed.
+
+(* C03 at step 0 and the premise of the day theorems: the day-level invariant holds in the initial state *)
+Theorem init_state_dayinv par k zgw0 fcr th0 s :
+  wf_prof (so_prof (p_soil par)) -> in_bounds (so_prof (p_soil par)) th0 ->
+  table_ok (so_prof (p_soil par)) (p_water_table par) -> MgmtOK par ->
+  init_state par k zgw0 fcr th0 = Some s -> DayInv par s.
+Proof.
+  intros Hw Hb Ht M E. destruct (init_state_inv _ _ _ _ _ _ E) as (z & b & fc & th & Ew & ->).
+  destruct (init_water_inv _ _ _ _ _ _ _ _ _ Hw Hb Ht Ew) as [Hfc Hth].
+  constructor; cbn [d_th d_thini d_th_fc_Adj d_surface_storage]; try assumption.
+  - apply init_surf_nonneg. exact M.
+  - exact (mo_smt _ M).
+  - exact (mo_smt_f _ M).
+  - split; [exact (mo_bw _ M) | exact (mo_zb _ M)].
+Qed.
+
+(* the clock-indexed invariant, for the season counter the state was built for and dap = 0 *)
+Theorem init_state_strong par crops zgw0 fcr th0 :
+  ParOK par crops -> in_bounds (so_prof (p_soil par)) th0 ->
+  table_ok (so_prof (p_soil par)) (p_water_table par) -> MgmtOK par ->
+  forall k, (k = 0 \/ k = -1)%Z -> forall s, init_state par k zgw0 fcr th0 = Some s -> StrongInv par crops k 0 s.
+Proof.
+  intros P Hb Ht M k Hk s E.
+  pose proof (init_state_dayinv par k zgw0 fcr th0 s (po_wf _ _ P) Hb Ht M E) as DI.
+  destruct (init_state_inv _ _ _ _ _ _ E) as (z & b & fc & th & Ew & Es).
+  pose proof (po_crop _ _ P k) as CK.
+  pose proof (co_can _ _ _ _ CK) as Hc. pose proof Hc as [H0 H0x Hx1 Hg Hd].
+  pose proof (co_kcb _ _ _ _ CK) as Hkcb. pose proof (co_fage _ _ _ _ CK) as Hfage.
+  constructor.
+  - exact DI.
+  - destruct Hk as [->| ->]; lia.
+  - lia.
+  - rewrite Es.
+    constructor; cbn [d_canopy_cover d_canopy_cover_ns d_ccx_act_ns d_cc0_adj d_ccx_act d_ccx_w d_ccx_w_ns]; try lra.
+    + destruct Hk as [->| ->].
+      * change (0 =? -1)%Z with false. change (0 =? 0)%Z with true. cbv iota.
+        change (sel_crop par 0) with (p_crop par 0). apply (po_cc0 _ _ P). lia.
+      * change (-1 =? -1)%Z with true. cbv iota. lra.
+    + apply CanopyR.ccx_inv_le; [exact Hc | lra].
+  - rewrite Es. cbn [d_age_days]. nra.
+  - rewrite Es. cbn [d_age_days_ns]. nra.
+  - rewrite Es. cbn [d_delayed_cds]. lia.
+  - rewrite Es. cbn [d_r_cor]. lra.
+  - intros H. contradiction H. reflexivity.
+  - rewrite Es. cbn [d_tr_ratio]. lra.
+  - rewrite Es. cbn [d_aer_days_comp]. clear. induction (so_prof (p_soil par)) as [|c r IH]; cbn [map]; constructor; [lra|exact IH].
+  - rewrite Es. cbn [d_day_submerged]. apply nonneg_int_0.
+Qed.
+
+(* the two extra facts of the per-row theorems: PctLagPhase in [0,100], nothing irrigated so far *)
+Theorem init_state_rinv2 par k zgw0 fcr th0 s :
+  0 <= i_MaxIrrSeason (p_irr par) -> init_state par k zgw0 fcr th0 = Some s -> RInv2 par s.
+Proof.
+  intros Hm E. destruct (init_state_inv _ _ _ _ _ _ E) as (z & b & fc & th & _ & ->).
+  unfold RInv2. cbn [d_pct_lag_phase d_irr_cum]. split; [lra|exact Hm].
+Qed.
+
+(* without a water table initialisation never raises, whatever the season counter and the water contents handed in;
+   th, thini are the contents handed in and th_fc_Adj is th_fc *)
+Theorem init_state_defined_no_table par k zgw0 fcr th0 : p_water_table par = 0%Z ->
+  exists s, init_state par k zgw0 fcr th0 = Some s /\ d_th s = th0 /\ d_thini s = th0 /\
+            d_th_fc_Adj s = map (fun c => c_th_fc c) (so_prof (p_soil par)) /\ d_wt_in_soil s = Some false /\ d_z_gw s = Some (-999).
+Proof.
+  intros Hwt. unfold init_state, init_water. cbv zeta. rewrite Hwt. cbn [Z.eqb]. eexists. split; [reflexivity|].
+  cbn [d_th d_thini d_th_fc_Adj d_wt_in_soil d_z_gw]. rnum. repeat split; reflexivity.
+Qed.
+
+(* with a water table it raises exactly when no depth is available for step 0, or when zMid places the table inside the
+   profile although no recomputed mid-point (top + bottom) / 2 lies below it, or th0 is too short *)
+Theorem init_state_defined_table par k zgw fcr th0 : p_water_table par = 1%Z ->
+  init_wt_in_soil zgw (so_prof (p_soil par)) = false ->
+  exists s, init_state par k (Some zgw) fcr th0 = Some s /\ d_wt_in_soil s = Some false /\
+            d_th_fc_Adj s = init_fcadj zgw (so_prof (p_soil par)) /\
+            d_th s = (if fcr then init_fcadj zgw (so_prof (p_soil par)) else th0).
+Proof.
+  intros Hwt Hs. unfold init_state, init_water. cbv zeta. rewrite Hwt. cbn [Z.eqb Pos.eqb]. rewrite Hs. eexists. split; [reflexivity|].
+  cbn [d_th d_th_fc_Adj d_wt_in_soil]. repeat split; reflexivity.
+Qed.
+
+(* ============================================================================================================ *)
+(*  Part C  from the initial state to every day of the run                                                        *)
+(* ============================================================================================================ *)
+(* the season counter the clock starts with (Clock.init_model): 0 when the first planting step is step 0, else -1 *)
+Definition init_season (c : ClockP) : Z :=
+  match plant c with p :: _ => if (p =? 0)%Z then 0%Z else (-1)%Z | [] => (-1)%Z end.
+
+Lemma init_season_cases c : (init_season c = 0 \/ init_season c = -1)%Z.
+Proof. unfold init_season. destruct (plant c) as [|p r]; [right; reflexivity|]. destruct (p =? 0)%Z; [left|right]; reflexivity. Qed.
+
+(* DaySideRun.init_strong + DaySideRun2.init_strong_season with the invariant asked only for the season counter the clock
+   starts with; `2 <= n_steps`, `plant c <> []` and `0 <= first planting step` follow from wf_clock and init_c = Ok *)
+Lemma init_clock_strong par crops c (s0 : DState R) (m0 : Model (DState R) (DRow R) (DOut R)) :
+  wf_clock c -> init_c c s0 = Ok m0 -> StrongInv par crops (init_season c) 0 s0 ->
+  minv (DState R) (DRow R) (DOut R) c m0 /\ SInv par crops (st m0) /\ DapInv (DState R) c (st m0) /\ phys (st m0) = s0.
+Proof.
+  intros Hwf Hi HS. unfold init_c in Hi.
+  assert (Hp : plant c <> []) by (intros E; unfold init_model in Hi; rewrite E in Hi; discriminate).
+  assert (Hp0 : forall p, nthZ (plant c) 0 = Some p -> (0 <= p)%Z) by (intros p Ep; apply (wf_window c Hwf 0%Z p Ep)).
+  assert (H2 : (2 <= n_steps c)%Z).
+  { destruct (plant c) as [|p r] eqn:Epl; [contradiction|].
+    assert (E0 : nthZ (plant c) 0 = Some p) by (rewrite Epl; reflexivity).
+    destruct (wf_window c Hwf 0%Z p E0). lia. }
+  destruct (init_model_inv _ _ _ c s0 m0 Hwf H2 Hp Hp0 Hi) as (Hm & _ & _). split; [exact Hm|].
+  revert Hi HS. unfold init_model, init_season. destruct (plant c) as [|p r] eqn:Epl; [discriminate|]. intros [= <-] HS.
+  cbn [st season dap phys tsc]. split; [|split; [|reflexivity]].
+  - unfold SInv. cbn [season dap phys]. exact HS.
+  - unfold DapInv. cbn [st season dap tsc]. intros p'. destruct (Z.eqb_spec p 0) as [->|Hne].
+    + unfold nthZ. rewrite Epl. cbn. intros [= <-]. lia.
+    + unfold nthZ. cbn. discriminate.
+Qed.
+
+Section FromInit.
+  Variables (par : DPar R) (crops : Z -> CropFull R) (c : ClockP) (ws : list (Day.W R)).
+  Variables (zgw0 : option R) (fcr : bool) (th0 : list R) (s0 : DState R).
+  Variables (m0 : Model (DState R) (DRow R) (DOut R)).
+  (* static premises: parameters, clock, weather table *)
+  Hypothesis Hcn : cn_ok par.
+  Hypothesis Hmax : 0 <= i_MaxIrrSeason (p_irr par).
+  Hypothesis POK : ParOK par crops.
+  Hypothesis MOK : MgmtOK par.
+  Hypothesis Hwf : wf_clock c.
+  Hypothesis Hws : weather_ok (Day.W R) WOK2 ws.
+  Hypothesis HSeason : forall k p h, nthZ (plant c) k = Some p -> nthZ (harv c) k = Some h ->
+    let kk := cf_tr (crops (c_id (sel_crop par k))) in
+    (IZR (h - p) - Transpiration.k_MaxCanopyCD kk - 5) * (Transpiration.k_fage kk / 100) <= Transpiration.k_Kcb kk.
+  Hypothesis Htab : table_ok (so_prof (p_soil par)) (p_water_table par).
+  (* with a water table: room for the capillary overshoot on every day (the one hypothesis about intermediate values the
+     whole-run theorems keep; vacuous without a water table) *)
+  Hypothesis HCap : forall season gs dap tsc w s Rs,
+    results_opt (ctx par season gs dap tsc w s) (procs_concrete crops) = Some Rs -> CapOK par Rs.
+  (* the one premise about the initial water contents *)
+  Hypothesis Hth0 : in_bounds (so_prof (p_soil par)) th0.
+  (* initialisation *)
+  Hypothesis Hinit : init_state par (init_season c) zgw0 fcr th0 = Some s0.
+  Hypothesis Hclock : init_c c s0 = Ok m0.
+
+  Lemma from_init_premises :
+    minv (DState R) (DRow R) (DOut R) c m0 /\ SInv par crops (st m0) /\ DapInv (DState R) c (st m0) /\ RInv2 par (phys (st m0)).
+  Proof.
+    pose proof (init_state_strong par crops zgw0 fcr th0 POK Hth0 Htab MOK _ (init_season_cases c) s0 Hinit) as HS.
+    destruct (init_clock_strong par crops c s0 m0 Hwf Hclock HS) as (A & B & C & D).
+    split; [exact A|]. split; [exact B|]. split; [exact C|]. rewrite D.
+    exact (init_state_rinv2 par _ zgw0 fcr th0 s0 Hmax Hinit).
+  Qed.
+
+  Theorem run_from_init_cap fuel (m' : Model (DState R) (DRow R) (DOut R)) :
+    run_till_c par crops c ws fuel m0 = Some (GOk m') ->
+    exists evs : list (Ev (DState R) (Day.W R) (DRow R)),
+      Reach (DState R) (Day.W R) (DRow R) (DOut R) (proc_c par crops) dead (matured par) (summary_of par) (reset par) (defined_c par crops)
+            c ws m0 evs m' /\
+      SInv par crops (st m') /\ RInv2 par (phys (st m')) /\
+      Forall (fun e => strong_ev par crops e /\ rows_day par crops e) evs /\
+      chained _ _ _ (reset par) ws (phys (st m')) evs /\
+      rows (tabs m') = map (fun e => (e_tsc _ _ _ e, e_row _ _ _ e)) evs ++ rows (tabs m0).
+  Proof.
+    destruct from_init_premises as (A & B & C & D).
+    exact (run_till_rows_strong_season par crops Hcn Hmax POK c ws Hwf Hws HSeason HCap fuel m0 m' A B C D).
+  Qed.
+
+  Theorem run_steps_from_init_cap k (m' : Model (DState R) (DRow R) (DOut R)) :
+    run_steps_c par crops c ws k m0 = GOk m' ->
+    exists evs : list (Ev (DState R) (Day.W R) (DRow R)),
+      Reach (DState R) (Day.W R) (DRow R) (DOut R) (proc_c par crops) dead (matured par) (summary_of par) (reset par) (defined_c par crops)
+            c ws m0 evs m' /\
+      SInv par crops (st m') /\ RInv2 par (phys (st m')) /\
+      Forall (fun e => strong_ev par crops e /\ rows_day par crops e) evs /\
+      chained _ _ _ (reset par) ws (phys (st m')) evs /\
+      rows (tabs m') = map (fun e => (e_tsc _ _ _ e, e_row _ _ _ e)) evs ++ rows (tabs m0).
+  Proof.
+    destruct from_init_premises as (A & B & C & D).
+    exact (run_steps_rows_strong_season par crops Hcn Hmax POK c ws Hwf Hws HSeason HCap k m0 m' A B C D).
+  Qed.
+End FromInit.
+
+(* THE CLOSED STATEMENT (no water table): run_model(till_termination = True) right after _initialize().  Premises: static
+   conditions on the parameter structures, the clock and the weather table, and [in_bounds prof th0] for the interpolated
+   initial water contents.  Conclusion: every per-row theorem (C01 / C02 / C03 / C04 / C05 / C06 / C13 / C19) for every day. *)
+Theorem run_from_init par crops c ws zgw0 fcr th0 s0 (m0 m' : Model (DState R) (DRow R) (DOut R)) fuel :
+  cn_ok par -> 0 <= i_MaxIrrSeason (p_irr par) -> ParOK par crops -> MgmtOK par ->
+  wf_clock c -> weather_ok (Day.W R) WOK2 ws ->
+  (forall k p h, nthZ (plant c) k = Some p -> nthZ (harv c) k = Some h ->
+     let kk := cf_tr (crops (c_id (sel_crop par k))) in
+     (IZR (h - p) - Transpiration.k_MaxCanopyCD kk - 5) * (Transpiration.k_fage kk / 100) <= Transpiration.k_Kcb kk) ->
+  p_water_table par = 0%Z ->
+  in_bounds (so_prof (p_soil par)) th0 ->
+  init_state par (init_season c) zgw0 fcr th0 = Some s0 ->
+  init_c c s0 = Ok m0 ->
+  run_till_c par crops c ws fuel m0 = Some (GOk m') ->
+  exists evs : list (Ev (DState R) (Day.W R) (DRow R)),
+    Reach (DState R) (Day.W R) (DRow R) (DOut R) (proc_c par crops) dead (matured par) (summary_of par) (reset par) (defined_c par crops)
+          c ws m0 evs m' /\
+    SInv par crops (st m') /\ RInv2 par (phys (st m')) /\
+    Forall (fun e => strong_ev par crops e /\ rows_day par crops e) evs /\
+    chained _ _ _ (reset par) ws (phys (st m')) evs /\
+    rows (tabs m') = map (fun e => (e_tsc _ _ _ e, e_row _ _ _ e)) evs ++ rows (tabs m0).
+Proof.
+  intros Hcn Hmax P M Hwf Hws HS Hwt Hth Hi Hc.
+  apply (run_from_init_cap par crops c ws zgw0 fcr th0 s0 m0 Hcn Hmax P M Hwf Hws HS (or_introl Hwt)); try assumption.
+  intros season gs dap tsc w s Rs _. apply CapOK_no_table. rewrite Hwt. discriminate.
+Qed.
+
+(* run_model(num_steps = k, initialize_model = False) right after _initialize() *)
+Theorem run_steps_from_init par crops c ws zgw0 fcr th0 s0 (m0 m' : Model (DState R) (DRow R) (DOut R)) k :
+  cn_ok par -> 0 <= i_MaxIrrSeason (p_irr par) -> ParOK par crops -> MgmtOK par ->
+  wf_clock c -> weather_ok (Day.W R) WOK2 ws ->
+  (forall k p h, nthZ (plant c) k = Some p -> nthZ (harv c) k = Some h ->
+     let kk := cf_tr (crops (c_id (sel_crop par k))) in
+     (IZR (h - p) - Transpiration.k_MaxCanopyCD kk - 5) * (Transpiration.k_fage kk / 100) <= Transpiration.k_Kcb kk) ->
+  p_water_table par = 0%Z ->
+  in_bounds (so_prof (p_soil par)) th0 ->
+  init_state par (init_season c) zgw0 fcr th0 = Some s0 ->
+  init_c c s0 = Ok m0 ->
+  run_steps_c par crops c ws k m0 = GOk m' ->
+  exists evs : list (Ev (DState R) (Day.W R) (DRow R)),
+    Reach (DState R) (Day.W R) (DRow R) (DOut R) (proc_c par crops) dead (matured par) (summary_of par) (reset par) (defined_c par crops)
+          c ws m0 evs m' /\
+    SInv par crops (st m') /\ RInv2 par (phys (st m')) /\
+    Forall (fun e => strong_ev par crops e /\ rows_day par crops e) evs /\
+    chained _ _ _ (reset par) ws (phys (st m')) evs /\
+    rows (tabs m') = map (fun e => (e_tsc _ _ _ e, e_row _ _ _ e)) evs ++ rows (tabs m0).
+Proof.
+  intros Hcn Hmax P M Hwf Hws HS Hwt Hth Hi Hc.
+  apply (run_steps_from_init_cap par crops c ws zgw0 fcr th0 s0 m0 Hcn Hmax P M Hwf Hws HS (or_introl Hwt)); try assumption.
+  intros season gs dap tsc w s Rs _. apply CapOK_no_table. rewrite Hwt. discriminate.
+Qed.
+
+(* ============================================================================================================ *)
+(*  Part D  non-vacuity and refutations                                                                           *)
+(* ============================================================================================================ *)
+(* ---- the instance of DaySideP.Ex (two layers / four compartments, bunds 0.2 with 0.01 of water, net irrigation, no
+        water table), initial contents at field capacity ------------------------------------------------------------- *)
+Definition ex_th0 : list R := [22/100; 22/100; 39/100; 39/100].
+
+Lemma ex_mgmt : MgmtOK DaySideP.Ex.par.
+Proof. constructor; cbn; lra. Qed.
+
+Lemma ex_th0_bounds : in_bounds (so_prof (p_soil DaySideP.Ex.par)) ex_th0.
+Proof. exact (inv_thini _ _ DaySideP.Ex.day_inv). Qed.
+
+Example init_state_example :
+  ParOK DaySideP.Ex.par DaySideP.Ex.crops /\ MgmtOK DaySideP.Ex.par /\
+  table_ok (so_prof (p_soil DaySideP.Ex.par)) (p_water_table DaySideP.Ex.par) /\
+  in_bounds (so_prof (p_soil DaySideP.Ex.par)) ex_th0 /\
+  exists s, init_state DaySideP.Ex.par 0 None false ex_th0 = Some s /\
+            d_surface_storage s = 1/100 /\ d_z_root s = 3/10 /\ d_cc0_adj s = 1/100 /\ d_th s = ex_th0 /\
+            DayInv DaySideP.Ex.par s /\ StrongInv DaySideP.Ex.par DaySideP.Ex.crops 0 0 s /\ RInv2 DaySideP.Ex.par s.
+Proof.
+  assert (Ht : table_ok (so_prof (p_soil DaySideP.Ex.par)) (p_water_table DaySideP.Ex.par)) by (left; reflexivity).
+  split; [exact DaySideP.Ex.par_ok|]. split; [exact ex_mgmt|]. split; [exact Ht|]. split; [exact ex_th0_bounds|].
+  destruct (init_state_defined_no_table DaySideP.Ex.par 0 None false ex_th0 eq_refl) as (s & E & Eth & _).
+  exists s. split; [exact E|].
+  pose proof (init_state_dayinv _ _ _ _ _ _ (po_wf _ _ DaySideP.Ex.par_ok) ex_th0_bounds Ht ex_mgmt E) as DI.
+  pose proof (init_state_strong _ _ None false ex_th0 DaySideP.Ex.par_ok ex_th0_bounds Ht ex_mgmt 0%Z (or_introl eq_refl) s E) as SI.
+  assert (R2 : RInv2 DaySideP.Ex.par s) by (apply (init_state_rinv2 _ 0%Z None false ex_th0 s); [cbn; lra | exact E]).
+  destruct (init_state_inv _ _ _ _ _ _ E) as (z & b & fc & th & _ & Es).
+  split; [|split; [|split; [|split; [exact Eth|split; [exact DI|split; [exact SI|exact R2]]]]]]; rewrite Es;
+    cbn [d_surface_storage d_z_root d_cc0_adj]; change (0 =? -1)%Z with false; change (0 =? 0)%Z with true; cbv iota.
+  - unfold init_surface, pmin. cbn [DaySideP.Ex.par DaySideP.Ex.field p_field f_bunds f_z_bund f_bund_water andb]. rnum.
+    rewrite (Rltb_true (1 / 1000) (2 / 10)) by lra. rewrite (Rltb_false (2 / 10) (1 / 100)) by lra. reflexivity.
+  - reflexivity.
+  - reflexivity.
+Qed.
+
+(* ---- a water table inside the profile: the two-layer profile of GroundwaterR, table at 0.12 m (below the centre of
+        the second compartment only) ------------------------------------------------------------------------------------ *)
+Lemma grid3_intro (n : Z) x : x = IZR n / 1000 -> grid3 x.
+Proof. intros ->. exists n. unfold pow10. change (10 ^ Z.max 3 0)%Z with 1000%Z. reflexivity. Qed.
+
+Example init_water_table_example :
+  let p := [GroundwaterR.ex_top; GroundwaterR.ex_bot] in
+  wf_prof p /\ table_ok p 1 /\ in_bounds p [3/10; 1/10] /\
+  exists fc th, init_water p 1 (Some (12/100)) false [3/10; 1/10] = Some (12/100, true, fc, th) /\
+                fc = init_fcadj (12/100) p /\ th = [3/10; 3/10] /\ fcadj_ok p fc /\ in_bounds p th.
+Proof.
+  cbv zeta. set (p := [GroundwaterR.ex_top; GroundwaterR.ex_bot]).
+  assert (Hw : wf_prof p) by exact GroundwaterR.ex_prof_wf.
+  assert (Hu : uniform_s p).
+  { intros c c' [<-|[<-|[]]] [<-|[<-|[]]]; cbn; intros H; try reflexivity; discriminate. }
+  assert (Ht : table_ok p 1).
+  { right. split; [reflexivity|]. split; [|exact Hu].
+    repeat constructor; cbn; [apply (grid3_intro 300) | apply (grid3_intro 500) | apply (grid3_intro 100) | apply (grid3_intro 300)]; lra. }
+  assert (Hb : in_bounds p [3/10; 1/10]) by (repeat constructor; cbn; lra).
+  split; [exact Hw|]. split; [exact Ht|]. split; [exact Hb|].
+  assert (Hh : hyd_th_s p 2 = 3/10) by (apply (hyd_th_s_uniform p GroundwaterR.ex_bot Hu); right; left; reflexivity).
+  assert (E : init_water p 1 (Some (12/100)) false [3/10; 1/10] = Some (12/100, true, init_fcadj (12/100) p, [3/10; 3/10])).
+  { unfold init_water. cbn [Z.eqb Pos.eqb].
+    assert (Hs : init_wt_in_soil (12/100) p = true).
+    { unfold init_wt_in_soil, gw_wt_in_soil. cbn [p existsb GroundwaterR.ex_top GroundwaterR.ex_bot c_zmid]. rnum. GroundwaterR.rdecide. reflexivity. }
+    rewrite Hs. cbn [p sat_find sat_from GroundwaterR.ex_top GroundwaterR.ex_bot c_dzsum c_layer]. fold p. rnum.
+    rewrite (Rleb_false (12/100) ((0 + 1/10) / 2)) by lra. rewrite (Rleb_true (12/100) ((1/10 + 2/10) / 2)) by lra.
+    fold GroundwaterR.ex_top GroundwaterR.ex_bot. fold p. rewrite Hh. reflexivity. }
+  eexists _, _. split; [exact E|]. split; [reflexivity|]. split; [reflexivity|].
+  exact (init_water_inv _ _ _ _ _ _ _ _ _ Hw Hb Ht E).
+Qed.
+
+(* ---- the whole chain: a 120-step window, one season planted at step 0 and harvested at step 100, the weather record
+        of DayP.Ex every day ---------------------------------------------------------------------------------------------- *)
+Definition ex_clock : ClockP := {| n_steps := 120; plant := [0%Z]; harv := [100%Z]; off_season := false |}.
+Definition ex_ws : list (Day.W R) := repeat DayP.Ex.w0 120.
+
+Lemma nthZ_single x k y : nthZ [x] k = Some y -> k = 0%Z /\ y = x.
+Proof.
+  unfold nthZ. destruct (Z.ltb_spec k 0); [discriminate|].
+  destruct (Z.to_nat k) as [|n] eqn:En; cbn; [intros [= <-]; split; [lia|reflexivity] | destruct n; discriminate].
+Qed.
+
+Lemma ex_clock_wf : wf_clock ex_clock.
+Proof.
+  constructor; cbn [ex_clock plant harv n_steps].
+  - reflexivity.
+  - intros k p h Hp Hh. destruct (nthZ_single _ _ _ Hp) as [_ ->]. destruct (nthZ_single _ _ _ Hh) as [_ ->]. lia.
+  - intros k h p' Hh Hp. destruct (nthZ_single _ _ _ Hh) as [-> _]. destruct (nthZ_single _ _ _ Hp) as [H _]. lia.
+  - intros k p Hp. destruct (nthZ_single _ _ _ Hp) as [_ ->]. lia.
+Qed.
+
+Lemma ex_ws_ok : weather_ok (Day.W R) WOK2 ex_ws.
+Proof.
+  intros t w. unfold nthW. destruct (t <? 0)%Z; [discriminate|]. intros E. apply nth_error_In in E.
+  apply repeat_spec in E. subst w. constructor; cbn; lra.
+Qed.
+
+(* every premise of [run_from_init] holds on this instance, so its conclusion holds for every terminated run of it *)
+Example run_from_init_example :
+  exists s0 m0, init_state DaySideP.Ex.par (init_season ex_clock) None false ex_th0 = Some s0 /\ init_c ex_clock s0 = Ok m0 /\
+    forall fuel m', run_till_c DaySideP.Ex.par DaySideP.Ex.crops ex_clock ex_ws fuel m0 = Some (GOk m') ->
+    exists evs : list (Ev (DState R) (Day.W R) (DRow R)),
+      Reach (DState R) (Day.W R) (DRow R) (DOut R) (proc_c DaySideP.Ex.par DaySideP.Ex.crops) dead (matured DaySideP.Ex.par)
+            (summary_of DaySideP.Ex.par) (reset DaySideP.Ex.par) (defined_c DaySideP.Ex.par DaySideP.Ex.crops) ex_clock ex_ws m0 evs m' /\
+      SInv DaySideP.Ex.par DaySideP.Ex.crops (st m') /\ RInv2 DaySideP.Ex.par (phys (st m')) /\
+      Forall (fun e => strong_ev DaySideP.Ex.par DaySideP.Ex.crops e /\ rows_day DaySideP.Ex.par DaySideP.Ex.crops e) evs /\
+      chained _ _ _ (reset DaySideP.Ex.par) ex_ws (phys (st m')) evs /\
+      rows (tabs m') = map (fun e => (e_tsc _ _ _ e, e_row _ _ _ e)) evs ++ rows (tabs m0).
+Proof.
+  destruct (init_state_defined_no_table DaySideP.Ex.par (init_season ex_clock) None false ex_th0 eq_refl) as (s0 & E & _).
+  exists s0. eexists. split; [exact E|]. split; [reflexivity|]. intros fuel m'.
+  destruct rows_strong_hypotheses_satisfiable as (Hcn & Hmax & _ & _).
+  apply (run_from_init DaySideP.Ex.par DaySideP.Ex.crops ex_clock ex_ws None false ex_th0 s0 _ m' fuel Hcn Hmax DaySideP.Ex.par_ok ex_mgmt
+           ex_clock_wf ex_ws_ok); [| reflexivity | exact ex_th0_bounds | exact E | reflexivity].
+  intros k p h Hp Hh. cbn [ex_clock plant harv] in Hp, Hh.
+  destruct (nthZ_single _ _ _ Hp) as [_ ->]. destruct (nthZ_single _ _ _ Hh) as [_ ->]. cbn. lra.
+Qed.
+
+(* ---- refutations: with a water table the premise "th_fc, th_s on the 3-decimal grid" cannot be dropped ------------------ *)
+(* one compartment 0.1 m thick with th_fc [fc] and th_s [s], the parameter structures of DaySideP.Ex with a water table *)
+Definition comp_r (fc s : R) : Comp R :=
+  {| c_dz := 1/10; c_dzsum := 1/10; c_zmid := 5/100; c_layer := 1; c_th_dry := 5/100; c_th_wp := 1/10; c_th_fc := fc; c_th_s := s;
+     c_ksat := 500; c_tau := 1/2; c_pen := 100; c_acr := -1; c_bcr := 0 |}.
+Definition soil_r (c : Comp R) : DSoil R :=
+  {| so_cn := 61; so_adj_cn := 1; so_z_cn := 3/10; so_nComp := 1; so_z_top := 1/10; so_nLayer := 1; so_fshape_cr := 16;
+     so_z_germ := 3/10; so_evap_z_min := 15/100; so_evap_z_max := 30/100; so_rew := 9; so_kex := 11/10; so_fwcc := 50;
+     so_f_wrel_exp := 4/10; so_f_evap := 4; so_prof := [c] |}.
+Definition par_r (c : Comp R) : DPar R :=
+  {| p_soil := soil_r c; p_irr := DaySideP.Ex.irr; p_fallow_irr := DaySideP.Ex.irr; p_field := DaySideP.Ex.field;
+     p_fallow_field := DaySideP.Ex.field; p_crop := fun _ => DaySideP.Ex.dcrop; p_fallow_crop := DaySideP.Ex.dcrop; p_water_table := 1;
+     p_co2c := fun _ => 400; p_co2r := 36941/100; p_evap_steps := 20; p_sim_off := false |}.
+
+Lemma comp_r_wf fc s : 1/10 < fc -> fc < s -> wf_prof [comp_r fc s].
+Proof. intros H1 H2. repeat constructor; cbn; lra. Qed.
+Lemma comp_r_uniform c : uniform_s [c].
+Proof. intros c1 c2 [<-|[]] [<-|[]] _. reflexivity. Qed.
+Lemma par_r_mgmt c : MgmtOK (par_r c).
+Proof. constructor; cbn; lra. Qed.
+
+Lemma Rround3_val x (n : Z) : Rabs (x * 1000 - IZR n) < / 2 -> Rround 3 x = IZR n / 1000.
+Proof.
+  intros H. unfold Rround, pow10. change (10 ^ Z.max 3 0)%Z with 1000%Z. rewrite (Znearest_imp _ _ n H). reflexivity.
+Qed.
+
+(* (1) th_fc = 0.3004, table 5 m deep (far from every compartment): th_fc_Adj = round(0.3004, 3) = 0.3 < th_fc *)
+Lemma init_fcadj_r1 : init_fcadj 5 [comp_r (3004/10000) (45/100)] = [300/1000].
+Proof.
+  unfold init_fcadj, init_fcadj_loop, gw_far, gw_xmax. cbn [snd fst comp_r c_th_fc c_zmid]. rnum. GroundwaterR.rdecide.
+  cbn [fst map c_th_fc]. rnum. f_equal. apply (Rround3_val _ 300). replace (3004 / 10000 * 1000 - 300) with (4/10) by field.
+  rewrite Rabs_pos_eq; lra.
+Qed.
+
+Theorem init_fcadj_below_fc_refuted :
+  exists p zgw, wf_prof p /\ uniform_s p /\ 0 <= zgw /\ ~ fcadj_ok p (init_fcadj zgw p).
+Proof.
+  exists [comp_r (3004/10000) (45/100)], 5. split; [apply comp_r_wf; lra|]. split; [apply comp_r_uniform|]. split; [lra|].
+  rewrite init_fcadj_r1. intros H. inversion H as [|? ? ? ? [H1 _] _]; subst. cbn in H1. lra.
+Qed.
+
+(* (2) th_s = 0.4006, th_fc = 0.3, table 0.5 mm below the centre of the compartment, initial content given as "FC":
+       th_fc_Adj = round(0.40054970..., 3) = 0.401 > th_s, and th is this array *)
+Lemma init_fcadj_r2 : init_fcadj (505/10000) [comp_r (3/10) (4006/10000)] = [401/1000].
+Proof.
+  unfold init_fcadj, init_fcadj_loop, gw_far, gw_xmax. cbn [snd fst comp_r c_th_fc c_zmid]. rnum. GroundwaterR.rdecide.
+  unfold init_fcadj_comp, gw_xmax. cbn [fst map comp_r c_th_fc c_th_s c_zmid]. rnum. GroundwaterR.rdecide.
+  rewrite (GroundwaterR.Rpow_sq 2) by lra. rewrite GroundwaterR.Rpow_sq by lra.
+  f_equal. apply (Rround3_val _ 401).
+  apply Rabs_def1; lra.
+Qed.
+
+Lemma init_water_r2 :
+  init_water [comp_r (3/10) (4006/10000)] 1 (Some (505/10000)) true [3/10] = Some (505/10000, false, [401/1000], [401/1000]).
+Proof.
+  unfold init_water. cbn [Z.eqb Pos.eqb]. rewrite init_fcadj_r2.
+  unfold init_wt_in_soil, gw_wt_in_soil. cbn [existsb comp_r c_zmid]. rnum. GroundwaterR.rdecide. reflexivity.
+Qed.
+
+(* [init_state_dayinv] without the grid premise is false: every other premise holds, initialisation succeeds, and the water
+   content of the compartment exceeds saturation (replayed on /repo: custom soil add_layer(1.2, 0.1, 0.3, 0.4006, 500, 100),
+   GroundWater constant 0.0505 m, default initial water content: th[0] = 0.401 > 0.4006) *)
+Theorem init_state_dayinv_no_grid_refuted :
+  exists par k zgw0 fcr th0 s,
+    wf_prof (so_prof (p_soil par)) /\ in_bounds (so_prof (p_soil par)) th0 /\ p_water_table par = 1%Z /\
+    uniform_s (so_prof (p_soil par)) /\ MgmtOK par /\ init_state par k zgw0 fcr th0 = Some s /\
+    ~ in_bounds (so_prof (p_soil par)) (d_th s) /\ ~ DayInv par s.
+Proof.
+  set (c := comp_r (3/10) (4006/10000)).
+  assert (Hw : wf_prof [c]) by (apply comp_r_wf; lra).
+  assert (E : exists s, init_state (par_r c) 0 (Some (505/10000)) true [3/10] = Some s /\ d_th s = [401/1000]).
+  { unfold init_state. cbv zeta. cbn [par_r p_soil soil_r so_prof p_water_table]. unfold c. rewrite init_water_r2.
+    eexists. split; [reflexivity|reflexivity]. }
+  destruct E as (s & E & Eth).
+  assert (Hnb : ~ in_bounds (so_prof (p_soil (par_r c))) (d_th s)).
+  { rewrite Eth. cbn [par_r p_soil soil_r so_prof]. intros H. inversion H as [|? ? ? ? [_ H2] _]; subst. cbn in H2. lra. }
+  exists (par_r c), 0%Z, (Some (505/10000)), true, [3/10], s.
+  split; [exact Hw|]. split; [repeat constructor; cbn; lra|]. split; [reflexivity|]. split; [apply comp_r_uniform|].
+  split; [apply par_r_mgmt|]. split; [exact E|]. split; [exact Hnb|]. intros DI. exact (Hnb (inv_th _ _ DI)).
+Qed.
+
+Print Assumptions init_state_dayinv.
+Print Assumptions init_state_strong.
+Print Assumptions init_state_rinv2.
+Print Assumptions init_state_defined_no_table.
+Print Assumptions run_from_init_cap.
+Print Assumptions run_from_init.
+Print Assumptions run_steps_from_init.
+Print Assumptions init_state_example.
+Print Assumptions init_water_table_example.
+Print Assumptions run_from_init_example.
+Print Assumptions init_fcadj_below_fc_refuted.
+Print Assumptions init_state_dayinv_no_grid_refuted.
